@@ -1,5 +1,20 @@
+//! vh-exec: executor workloads against the reference executor R1 and the
+//! resolver event log (C01–C06, C09, C10, C20, C22, C27, C30).
+
+mod c01;
+mod c02;
+mod c03;
+mod common;
+
 fn main() {
     let id = std::env::args().nth(1).unwrap_or_default();
-    println!("INCONCLUSIVE property={id} reason=vh-exec has no check for this property yet");
-    std::process::exit(2);
+    match id.as_str() {
+        "C01" => c01::main(),
+        "C02" => c02::main(),
+        "C03" => c03::main(),
+        other => {
+            println!("INCONCLUSIVE property={other} reason=vh-exec has no check for this property");
+            std::process::exit(2);
+        }
+    }
 }
